@@ -527,3 +527,8 @@ def _dummy_paraxial(ct, tier, seed):
 
 contract('C07.runtime.dummy_paraxial', ['optiland/paraxial.py:Paraxial.chief_ray', 'optiland/paraxial.py:Paraxial.marginal_ray', 'optiland/paraxial.py:Paraxial.invariant',
                                         'optiland/aberrations.py:Aberrations.seidels'], ['C07'], custom=_dummy_paraxial)(lambda c: None)
+
+
+# concrete inputs found by the defect-hunting sub-agents (bounded replay, see contracts/hunt.py)
+from . import hunt as _hunt  # noqa: E402
+_hunt.register('C07')
